@@ -84,6 +84,12 @@ class Scratch:
         os.makedirs(os.path.join(self.pkgroot, "hvscratchpkg"))
         with open(os.path.join(self.pkgroot, "hvscratchpkg", "__init__.py"), "w") as f:
             f.write("")
+        # ... a sub-package of it, and a one-file module that ships its assets next to itself
+        os.makedirs(os.path.join(self.pkgroot, "hvscratchpkg", "widgets"))
+        with open(os.path.join(self.pkgroot, "hvscratchpkg", "widgets", "__init__.py"), "w") as f:
+            f.write("")
+        with open(os.path.join(self.pkgroot, "hvscratchmod.py"), "w") as f:
+            f.write("")
         sys.path.insert(0, self.pkgroot)
 
     def dir(self, name="d"):
@@ -97,7 +103,8 @@ class Scratch:
             sys.path.remove(self.pkgroot)
         except ValueError:
             pass
-        sys.modules.pop("hvscratchpkg", None)
+        for m_ in ("hvscratchpkg", "hvscratchpkg.widgets", "hvscratchmod"):
+            sys.modules.pop(m_, None)
         shutil.rmtree(self.root, ignore_errors=True)
 
 
@@ -108,7 +115,7 @@ def rand_case(rng, n_files=None):
     # (names and versions that are written into the URL as they are and name the directory as they are: characters that
     #  percent-DEcoding leaves alone; '%', '#', '?' in a NAME would make the URL mean something else and are not used)
     return {"name": rng.choice(["dep-1", "my.dep", "d_2", "Dep", "dep-1", "my lib", "d\u00e9p", "a+b", "at@sign,x"]), "version": rng.choice(["1.0", "2.10.3", "0.1", "1.0+build.5", "1!2.0"]),
-            "scripts": scripts, "sheets": sheets, "source_kind": rng.choice(["abs", "abs", "abs", "rel", "rel", "pkg", "pkg", "pkg_libtest", "url", "url_slash", "none", "url_root", "url_protocol_relative", "url_slashes", "url_relative", "url_dot"]),
+            "scripts": scripts, "sheets": sheets, "source_kind": rng.choice(["abs", "abs", "abs", "rel", "rel", "pkg", "pkg", "pkg_sub", "pkg_module", "pkg_libtest", "url", "url_slash", "none", "url_root", "url_protocol_relative", "url_slashes", "url_relative", "url_dot"]),
             "all_files": rng.random() < 0.25, "libdir": rng.choice(["lib", "lib", None, "a/b", "lib x"]), "include_version": rng.random() < 0.6,
             **({"page_subdir": rng.choice(["pages", "posts/2024", "p q"]), "libdir": rng.choice(["../lib", "../site_libs", "lib", "./lib", "ABSOLUTE"])} if rng.random() < 0.2 else
                {"libdir": "ABSOLUTE"} if rng.random() < 0.05 else {}),
@@ -141,6 +148,16 @@ def build_dep(case, scratch):
         srcdir = os.path.join(scratch.pkgroot, "hvscratchpkg", sub)
         make_source(srcdir, scripts + sheets)
         source = {"package": "hvscratchpkg", "subdir": sub}
+    elif kind == "pkg_sub":
+        sub = "assets%d" % scratch.n
+        srcdir = os.path.join(scratch.pkgroot, "hvscratchpkg", "widgets", sub)
+        make_source(srcdir, scripts + sheets)
+        source = {"package": "hvscratchpkg.widgets", "subdir": sub}
+    elif kind == "pkg_module":
+        sub = "modassets%d" % scratch.n
+        srcdir = os.path.join(scratch.pkgroot, sub)
+        make_source(srcdir, scripts + sheets)
+        source = {"package": "hvscratchmod", "subdir": sub}
     elif kind == "url":
         source = {"href": "https://cdn.example/lib"}
     elif kind == "url_slash":
@@ -149,7 +166,7 @@ def build_dep(case, scratch):
         source = {"href": URL_KINDS[kind]}
     else:
         source = None
-    if case.get("copied_before") and srcdir is not None and kind in ("abs", "rel", "pkg"):
+    if case.get("copied_before") and srcdir is not None and kind in ("abs", "rel", "pkg", "pkg_sub", "pkg_module"):
         # history: the same dependency definition was copied successfully earlier in this process
         old = os.getcwd()
         if cwd:
